@@ -47,6 +47,8 @@ MIN_COUNTERS = {
     "type_print_runs": {"quick": 200, "thorough": 200},
     "type_print_recorded": {"quick": 150, "thorough": 150},
     "ctxname_runs": {"quick": 300, "thorough": 300},
+    "odd_input_runs": {"quick": 200, "thorough": 200},
+    "breakout_string_runs": {"quick": 100, "thorough": 100},
 }
 UNIT_TIMEOUT = 150
 MARK = "VYTAINT"
@@ -175,6 +177,7 @@ def units(tier, seed):
     for i in range(len(VOLUME)):
         u.append({"kind": "volume", "i": i})
     u.append({"kind": "types"})
+    u.append({"kind": "odd_inputs"})
     u.append({"kind": "ctxnames", "part": 0})
     u.append({"kind": "ctxnames", "part": 1})
     for i in range(48 if q else 480):
@@ -380,6 +383,46 @@ def run_unit(unit):
                                   {"kind": "one", "mode": "taint", "text": text, "inputs": [], "flags": flags, "fault": None},
                                   program=text)
         res["samples"].append({"mode": "types", "snippets": len(VALUE_SNIPPETS), "printers": len(PRINTERS)})
+        return res
+    if k == "odd_inputs":
+        # inputs that are valid Python literals but not Vyxal values, malformed literals, huge literals, and
+        # string bodies shaped to break out of the generated string literal
+        odd = ["None", "...", "True", "[1, None]", "1e999", "-1e999", "{1: 2}", "{1, 2}", "b'x'", "1j", "(1, 2)", "()",
+               "[[[[[[[[[[1]]]]]]]]]]", "''", '""', "[", "]", "1_000", "0x10", "0b2", "1.", ".5", "1e5", "nan", "inf",
+               "[1, [2, None], 3]", "{'a': [1, None]}", "1" * 400, "[" + "1," * 300 + "1]", "'\\'", "'a\nb'", "\\", "`",
+               "[1,2", "1 2", "lambda: 1", "f''", "f'{1}'", "__debug__", "Ellipsis", "NotImplemented"]
+        bodies = ["?", "?,", "?E", "??+", "?L", "?w,", "□", "?:Ė"]
+        for inp in odd:
+            for body in bodies:
+                got = run_online(body, [inp], "", timeout=5)
+                if got["error"] in ("watchdog", "MemoryError"):
+                    continue
+                observe(got)
+                c["odd_input_runs"] = c.get("odd_input_runs", 0) + 1
+                res["keys"].append(harness.short_hash(["odd", body, inp]))
+                for mech, what in containment_violations(got, body):
+                    add_violation(res, mech, f"program {body!r} input={inp[:60]!r}: {what}",
+                                  {"kind": "one", "mode": "taint", "text": body, "inputs": [inp], "flags": "", "fault": None},
+                                  program=body)
+        # break-out shaped string literals, written raw (not through lit(), which would escape them)
+        BS, DQ, BQ = chr(92), chr(34), chr(96)
+        for pre in (BS + DQ, BS + BS + DQ, DQ, BS + BS + BS + DQ, BS + "'", BS + "n" + DQ, BS):
+            for tail in (");VYTAINT(20)#", ")" + chr(10) + "VYTAINT(21)#", "+str(VYTAINT(22)))#", ");print('VYTAINT')#"):
+                for wrap in ("{}", "{},", "{}E", "3({}_)", "λ{};†", "⟨{}⟩", "?Ė"):
+                    s_lit = BQ + pre + tail + BQ
+                    text = wrap.replace("{}", s_lit)
+                    inputs = [s_lit] if wrap == "?Ė" else []
+                    got = run_online(text, inputs, "", timeout=5)
+                    if got["error"] in ("watchdog", "MemoryError"):
+                        continue
+                    observe(got)
+                    c["breakout_string_runs"] = c.get("breakout_string_runs", 0) + 1
+                    res["keys"].append(harness.short_hash(["breakout", text, inputs]))
+                    for mech, what in containment_violations(got, text):
+                        add_violation(res, mech, f"program {text!r} inputs={inputs}: {what}",
+                                      {"kind": "one", "mode": "taint", "text": text, "inputs": inputs, "flags": "", "fault": None},
+                                      program=text)
+        res["samples"].append({"mode": "odd_inputs", "inputs": odd[:8]})
         return res
     if k == "ctxnames":
         # program-chosen variable names that coincide with attributes of the interpreter's context object
